@@ -17,7 +17,7 @@ o1 == objs[1]
 \* the object now reports the logged observation; its cache is fresh exactly when that
 \* observation is bit-for-bit the one of a freshly constructed twin in state st2
 Observed(st2) ==
-  objs' = [objs EXCEPT ![1] = [st |-> st2, src |-> IF TwinEq(Ev.o) THEN st2 ELSE Stale, o |-> Ev.o]]
+  objs' = [objs EXCEPT ![1] = [st |-> st2, src |-> IF TwinEq(Ev.o) THEN st2 ELSE Stale, o |-> Ev.o, nsO |-> 0, nsN |-> 0]]
 
 Accepted == Ev.rk = "ok" /\ out' = "ok"
 \* refused by the library (any bpp exception): nothing may have moved, bit for bit
@@ -62,7 +62,13 @@ TCopy ==
   /\ Accepted /\ Observed(o1.st)
   /\ ~Ev.o.failed /\ Ev.o.same /\ Core(Ev.o) = Core(o1.o)
 
-TraceNext == TReset \/ TConstruct \/ TSetParam \/ TSetN \/ TSetMedian \/ TRestrict \/ TCopy
+\* setNamespace renames the parameters (own and nested); the classes do not depend on names
+TSetNamespace ==
+  /\ IsEvent("SetNamespace") /\ objs[1] # None
+  /\ Accepted /\ Observed(o1.st)
+  /\ ~Ev.o.failed /\ Ev.o.same /\ Core(Ev.o) = Core(o1.o)
+
+TraceNext == TReset \/ TConstruct \/ TSetParam \/ TSetN \/ TSetMedian \/ TRestrict \/ TCopy \/ TSetNamespace
 TraceInit == Init /\ l = 1
 TraceSpec == TraceInit /\ [][TraceNext]_<<vars, l>>
 =============================================================================
